@@ -61,6 +61,10 @@ def ops_for(t):
         add('hmax', 'T h = x.maximum();', None, kind='hmax', mode='MINMAX')
         add('dot', 'T h = x.dot(y);', None, kind='dot', mode='ALG')
         add('index', 'T h = x[LANE];', None, kind='index')
+    if cx:   # fused forms on the complex vectors (separate specialisations per ABI in simd_vector_common.h)
+        add('fmadd', 'V z = fmadd(x,y,w);', 'z = x*y + w;', mode='ALG')
+        add('fmsub', 'V z = fmsub(x,y,w);', 'z = x*y - w;', mode='ALG')
+        add('fnmadd', 'V z = fnmadd(x,y,w);', 'z = w - x*y;', mode='ALG')
     if not fp and not cx:   # integer division: lane-wise, all three operand forms and the in-place forms
         add('div', 'V z = x / y;', 'z = x / y;')
         add('div_s', 'V z = x / s;', 'z = x / s;')
@@ -124,6 +128,11 @@ def mk(t, abi, name, op, lane=0, alt=None):
             m = re.match(r'z = (\w+) ([-+*/]) (\w+);', e)
             def re_(v): return {'x': 'a[2*i]', 'y': 'b[2*i]', 's': 's[0]'}[v]
             def im_(v): return {'x': 'a[2*i+1]', 'y': 'b[2*i+1]', 's': 's[1]'}[v]
+            fused = {'z = x*y + w;': ('', '+'), 'z = x*y - w;': ('', '-'), 'z = w - x*y;': ('-', '+')}
+            if e in fused:      # w is the third vector (region c)
+                sg, o = fused[e]
+                pre = 'const %s pr = a[2*i]*b[2*i] - a[2*i+1]*b[2*i+1], pi = a[2*i]*b[2*i+1] + a[2*i+1]*b[2*i];' % cc
+                return '{ %s r[2*i] = %spr %s c[2*i]; r[2*i+1] = %spi %s c[2*i+1]; }' % (pre, sg, o, sg, o)
             if m:
                 p, o, q = m.groups()
                 pr, pi, qr, qi = re_(p), im_(p), re_(q), im_(q)
